@@ -329,7 +329,7 @@ theorem liveInv_step (cfg : Cfg) {pol : Policy} (hpol : TimeFree pol) (clk : Nat
           have ht : t.oneOutcome = true := hone t (Or.inr rfl)
           rw [hout] at h3
           have he : rep.exit = none := h3.none_of_running
-          have hsim := reduce_sim cfg hpol t (clk (0 + (ticksOf r.log).length)) r.now h2
+          have hsim := reduce_simKey cfg hpol t (clk (0 + (ticksOf r.log).length)) r.now h2
           have hnc : (reduce cfg pol t rep.st (clk (0 + (ticksOf r.log).length))).2.contains Cmd.crash = false := by
             rw [contains_crash_key, hsim.2, ← contains_crash_key]
             simpa using hcrash
